@@ -546,7 +546,15 @@ func c09R3(p *Prog, r *Report, rv *Rendezvous) {
 			return found
 		}
 		for i, ed := range edits {
-			miss := ReachAvoiding(cl, ed, func(in ssa.Instruction) bool { return isPublish(in, ed) }, isReturn)
+			// the report may be made by a helper that computes the state and sends it on every path
+			viaHelper := MustPass(func(in ssa.Instruction) bool { return isPublish(in, nil) }, 2)
+			miss := ReachAvoiding(cl, ed, func(in ssa.Instruction) bool {
+				if isPublish(in, ed) {
+					return true
+				}
+				_, isCall := in.(*ssa.Call)
+				return isCall && in != ed && viaHelper(in)
+			}, isReturn)
 			name := fmt.Sprintf("%s: table-writing call #%d (%s) is followed by a state report", FuncName(cl), i+1, shortName(CalleeName(CallOf(ed))))
 			if len(miss) == 0 {
 				r.OK("C09.R3", name, p.InstrPos(ed), "every path from the call to an exit publishes the connection state recomputed after the call")
